@@ -6,7 +6,7 @@ CONSTANTS
   Big = {"b1", "b2"}
   Fanout = 3
   TxLimit = 3
-  SendList = "current"
+  SendList = "cached"
   OnTimeout = "ready"
   OkayRequired = 3
   Budgets = {0}
